@@ -131,6 +131,11 @@ impl CharProperty {
             .map(|c| c.as_str())
     }
 
+    #[cfg(vibrato_verif)]
+    pub(crate) fn verif_category_names(&self) -> &[String] {
+        &self.categories
+    }
+
     #[inline(always)]
     pub fn num_categories(&self) -> usize {
         self.categories.len()
